@@ -61,6 +61,7 @@ type Machine struct {
 	rtypeT    types.Type
 	keySeq    int
 	symLogs   map[*value][]logEntry
+	hashOrder [][2]interface{}
 }
 
 type inputRec struct {
